@@ -73,6 +73,16 @@ def bestOf (limit : Int) : List HHit → List HHit → List HHit
     if best.any (fun other => clash limit other hit) then bestOf limit best rest
     else bestOf limit (best ++ [hit]) rest
 
+/-- the body after the input checks: total sort, grouping sweep, per-group filter by rank, final
+    sort by start (`c` = the cut-offs as a total function) -/
+def core (c : Int → Int) (limit : Int) (hits : List HHit) : List HHit :=
+  match sortBy leTotal hits with
+  | [] => []
+  | h0 :: rest =>
+    let groups := groupsFrom limit [h0] h0.pe rest
+    let cleaned := groups.flatMap fun g => bestOf limit [] (sortBy (rankLe c) g)
+    sortBy leStart cleaned
+
 def removeOverlapping (cut : Int → Option Int) (limit : Int) (hits : List HHit) : Except HErr (List HHit) :=
   match hits with
   | [] => .error .assertion
@@ -82,14 +92,7 @@ def removeOverlapping (cut : Int → Option Int) (limit : Int) (hits : List HHit
     | some h => if (cut h.ident).isNone then .error .valueError else .error .zeroDivision
     | none =>
     if hits.any (fun h => decide (h.sc < 0) || decide ((cut h.ident).getD 0 ≤ 0)) then .error .unmodelled
-    else
-      let c := fun i => (cut i).getD 0
-      match sortBy leTotal hits with
-      | [] => .error .assertion
-      | h0 :: rest =>
-        let groups := groupsFrom limit [h0] h0.pe rest
-        let cleaned := groups.flatMap fun g => bestOf limit [] (sortBy (rankLe c) g)
-        .ok (sortBy leStart cleaned)
+    else .ok (core (fun i => (cut i).getD 0) limit hits)
 
 /-! ### `cluster_prediction.filter_result_multiple` / `filter_results`, one gene -/
 
@@ -176,15 +179,11 @@ def removedBy (groups : List (List FHit)) : List Nat :=
 /-- one pass of the outer loop for one gene: unchanged unless ≥ 2 distinct profiles of the
     equivalence group hit the gene -/
 def filterPass (hits : List FHit) (eqGroup : List Int) : List FHit :=
-  let present := (firstOccI (hits.map (·.prof))).filter (fun p => eqGroup.contains p)
+  let present := (ASV.Refine.firstOcc (hits.map (·.prof))).filter (fun p => eqGroup.contains p)
   if present.length < 2 then hits
   else
     let removed := removedBy (overlappingGroups hits)
     hits.filter (fun h => !removed.contains h.uid)
-where
-  firstOccI : List Int → List Int
-    | [] => []
-    | p :: ps => p :: (firstOccI ps).filter (· != p)
 
 /-- `filter_results` for one gene; `none` = the `assert results_by_id[cds]` fails -/
 def filterResults (eqGroups : List (List Int)) (hits : List FHit) : Option (List FHit) :=
